@@ -409,8 +409,9 @@ def _family_specs(ex, exp, grp, goff, G, N, pbf, view, decode, bits, depth_idx):
 # --------------------------------------------------------------------------------------------------------------
 # native (concrete) side of the oracle: used to replay counter-models and to cross-check the oracle itself
 # --------------------------------------------------------------------------------------------------------------
-def native_expected(defn, payload: bytes, pbf, mode_key=None):
-    """attribute dict {name: value} the definition prescribes for a concrete payload (None if it does not conform)"""
+def native_expected(defn, payload: bytes, pbf, mode_key=None, raw=False):
+    """attribute dict {name: value} the definition prescribes for a concrete payload (None if it does not conform);
+    raw=True: scaled integer fields are reported unscaled and high-precision parts under their own names"""
     import struct
     ents = parse_def(defn)
     out = {}
@@ -422,7 +423,7 @@ def native_expected(defn, payload: bytes, pbf, mode_key=None):
             return b.decode("utf-8", "backslashreplace")
         if L in INT_LETTERS:
             v = int.from_bytes(b, "little", signed=(L == "I"))
-            if scale is None or scale == 1:
+            if scale is None or scale == 1 or raw:
                 return v
             return round(v * scale, 12)
         if L in ("X", "C"):
@@ -442,7 +443,9 @@ def native_expected(defn, payload: bytes, pbf, mode_key=None):
                     raise IndexError("short")
                 v = dec(e.typ, e.scale, b)
                 nm = e.name + suffix
-                if e.name.startswith("_HP"):
+                if e.name.startswith("_HP") and raw:
+                    out[nm] = v
+                elif e.name.startswith("_HP"):
                     out[nm[3:]] = round(out[nm[3:]] + v, 12)
                 else:
                     out[nm] = v
